@@ -55,6 +55,29 @@ func rerootAt(root *core.N, path []int) *core.N {
 	return r
 }
 
+// rootOnBranch returns a copy of the tree rooted on the branch above the node reached by path (any non-root node):
+// a new node with one child is inserted there and becomes the root (two children).
+func rootOnBranch(root *core.N, path []int) *core.N {
+	r := root.Clone()
+	zeroPPos(r)
+	parent := r.At(path[:len(path)-1])
+	i := path[len(path)-1]
+	child := parent.Kids[i]
+	mid := &core.N{E: child.E, Kids: []*core.N{child}}
+	child.E = core.NewE()
+	parent.Kids[i] = mid
+	return rerootAt(r, path)
+}
+
+// branchChoice: the branch above the last node in pre-order (deterministic, so that a replay is exact).
+func branchChoice(root *core.N) []int {
+	if len(root.Kids) < 2 {
+		return nil
+	}
+	ps := root.Paths()
+	return ps[len(ps)-1]
+}
+
 // innerPaths lists the paths of the non-root nodes that have children, pre-order.
 func innerPaths(root *core.N) [][]int {
 	var out [][]int
@@ -157,6 +180,25 @@ func doAcr(c *core.Ctx, n *core.N, tips map[string]string, algo int) {
 			s2 = -2
 		}
 		rr = append(rr, s2)
+	}
+	if bp := branchChoice(n); len(bp) > 0 {
+		t2, err := core.Build(rootOnBranch(n, bp))
+		if err != nil {
+			panic(err)
+		}
+		s2 := -1
+		if p, _ := core.Safe(func() {
+			var e2 error
+			_, s2, e2 = acr.ParsimonyAcr(t2, copyMap(tips), algo, false)
+			if e2 != nil {
+				s2 = -1
+			}
+		}); p {
+			s2 = -2
+		}
+		rr = append(rr, s2)
+		rrp.WriteString(core.IntList(append(append([]int(nil), bp...), 999999)))
+		rrp.WriteByte(';')
 	}
 	c.Emit("C12.acr", append(in, "ok", fmt.Sprint(nsteps), after.Dump(), core.StrList(mk), core.StrList(mv), core.IntList(rr), rrp.String())...)
 }
@@ -309,7 +351,7 @@ func doAcrR(c *core.Ctx, n *core.N, tips map[string]string, algo int, seed int64
 
 func acrRCase(c *core.Ctx) {
 	g := c.G
-	n, _ := g.Tree(treeOpts(g))
+	n := drawTree(c, treeOpts(g))
 	k := 2 + g.Intn(4)
 	perm := g.R.Perm(len(statePool))
 	states := make([]string, k)
@@ -386,7 +428,7 @@ func asrRCase(c *core.Ctx) {
 	if o.MaxTips > 16 {
 		o.MaxTips = 16
 	}
-	n, _ := g.Tree(o)
+	n := drawTree(c, o)
 	names := n.TipNames()
 	sort.Strings(names)
 	doAsrR(c, n, names, nucSeqs(g, len(names)), g.Intn(3), int64(g.Intn(1<<30)))
@@ -568,8 +610,15 @@ func doAsr(c *core.Ctx, n *core.N, names, seqs []string, algo int, prot bool) {
 		return
 	}
 	var rr strings.Builder
+	var rrTrees []*core.N
 	for _, p := range rerootChoices(n) {
-		t2, err := core.Build(rerootAt(n, p))
+		rrTrees = append(rrTrees, rerootAt(n, p))
+	}
+	if bp := branchChoice(n); len(bp) > 0 {
+		rrTrees = append(rrTrees, rootOnBranch(n, bp))
+	}
+	for _, n2 := range rrTrees {
+		t2, err := core.Build(n2)
 		if err != nil {
 			panic(err)
 		}
